@@ -4,7 +4,8 @@ spec/reflect/EmbedLookup.tla  FieldByName("X") through every embedding graph ove
 spec/reflect/BlankCmp.tla     comparability of structs with blank fields (Type/Value.Comparable, interface ==, map[any] key)
 spec/reflect/ConvCopy.tla     a Value made by Convert, and an interface made from it, are values of their own: every script
                               over {mut, conv, iface, readc, readi} of up to 5 steps x {struct, array, string, int} operands
-Both are enumerated by TLC, rendered as one Go program, validated with the reference toolchain and compared with the
+spec/reflect/ReflectRO.tla    read-only flags of a Value along every path of 1..3 field selections (vlib/c15ro.py, own program)
+All are enumerated by TLC, rendered as one Go program, validated with the reference toolchain and compared with the
 llgo-compiled program."""
 import os
 
@@ -220,4 +221,5 @@ def run(chk, thorough):
     chk.cov["embed_lookup"] = {"graphs": len(graphs), "lookups": 5 * len(graphs), "ambiguous": sum(1 for r in graphs for l in r["look"] if l["why"] == "ambiguous")}
     chk.cov["comparable_blank"] = {"structs": len(blanks), "probes": 3 * len(blanks)}
     chk.cov["convert_copy"] = {"scripts": len(scripts), "operand_kinds": len(KINDS), "reads": sum(1 for k in expect if k.startswith("C"))}
-    return len(expect)
+    from . import c15ro
+    return len(expect) + c15ro.run(chk)
